@@ -2,6 +2,7 @@
 (the same shape the Lean driver answers with)."""
 import copy
 import io
+import json
 import sys
 
 from common import (  # noqa: F401
@@ -96,7 +97,43 @@ def run_main(model_spec, opts, inputs):
     return {'out': out.getvalue(), 'exit': {'ok': exitcode}}
 
 
+INPLACE_OPS = {'rearrange', 'reset_variables', 'graph_ops'}     # mutate by design / observed through registers
+
+
 def run_real(op):
+    """call the real function; also snapshot every graph/tree argument built from the op before and
+    after the call: a documented-pure call that changes an argument yields a result the model
+    (which cannot mutate) will not match (C17's purity clause)."""
+    made = []
+    g = globals()
+    orig_graph, orig_tree = g['py_graph'], g['py_tree']
+
+    def rec_graph(j):
+        x = orig_graph(j)
+        made.append(('graph', x, json.dumps(j_graph(x), sort_keys=True)))
+        return x
+
+    def rec_tree(j):
+        x = orig_tree(j)
+        made.append(('tree', x, json.dumps(j_tree(x), sort_keys=True)))
+        return x
+    g['py_graph'], g['py_tree'] = rec_graph, rec_tree
+    try:
+        out = _run_real(op)
+    finally:
+        g['py_graph'], g['py_tree'] = orig_graph, orig_tree
+    if op['op'] not in INPLACE_OPS:
+        for kind, x, before in made:
+            try:
+                after = json.dumps(j_graph(x) if kind == 'graph' else j_tree(x), sort_keys=True)
+            except Unrepresentable:
+                after = 'unrepresentable'
+            if after != before:
+                return {'argument_mutated': kind, 'result': out}
+    return out
+
+
+def _run_real(op):
     name = op['op']
     if name == 'lex':
         pat = _lexer.TRIPLE_RE if op.get('mode') == 'triples' else _lexer.PENMAN_RE
